@@ -37,6 +37,19 @@ CHECKS.update({
  "C14": ("E-twin", "exploration", "runtime monitor: k Watchers with different buffer sizes + interfering Watchers fed by one driver, each compared with the kernel log; capacity and absorb probes",
          "cap(Events) for 20 sizes; 2-4 measured Watchers and 1-4 interfering ones (Add/Remove/Close/re-create) on the same directories; buffered Watchers without consumer must hold exactly n<=cap events and deliver them intact.", TWIN_NOTE, "§4 C14"),
 })
+PROC_NOTE = "Trusted base: the Go runtime's goroutine dumps and /proc/self/{fd,fdinfo}; the verif hooks (lock probe, yield points) behave as written. Explores PRNG schedules; a watchdog expiry without a structural witness is inconclusive, never a violation."
+CHECKS.update({
+ "C05": ("E-proc", "exploration", "runtime monitor: lock probe at every channel send (verif hook) + goroutine-dump deadlock signature under a watchdog; injected delays at yield points; race-detector build",
+         "Histories that leave events/errors pending x 5 consumer behaviours x 5 buffer sizes, then a battery of control calls and 1-8 concurrent Close; a send performed while the sender holds the lock, or a blocked control call whose dump shows that send, is a violation.", PROC_NOTE, "§4 C05"),
+ "C06": ("E-proc", "exploration", "runtime monitor: Close injected at PRNG points under stress, child exit status (panics), closed-channel and post-close API probes, dump signatures; race-detector build",
+         "2000+ close points per quick run across consumer behaviours, buffers, 1-8 concurrent closers, racing Add/Remove/WatchList and GOMAXPROCS 1-16.", PROC_NOTE, "§4 C06"),
+ "C07": ("E-lin+E-race", "exploration", "recorded call/return histories checked with porcupine against a sequential model; Go race detector over the same workload; final tables==kernel invariant",
+         "Thousands of short concurrent histories (2-6 clients, with/without Close, mutators and consumer pacing, GOMAXPROCS 1-16, injected delays) each decided by porcupine; race reports with a library frame are violations.", "Trusted: porcupine v1.3.0, the sequential model (harness/checks/c07.go), the race detector's happens-before tracking. Only schedules that occurred are judged.", "§4 C07"),
+ "C13": ("E-proc+E-fault", "fault_enumeration", "runtime conservation monitor over /proc/self/fd and goroutine dumps across create/close cycles; injected fault: RLIMIT_NOFILE makes inotify_init1 fail",
+         "Thousands of create/use/close cycles over six prior-history kinds and thousands of NewWatcher calls failing with EMFILE; descriptor and goroutine counts must return to baseline.", PROC_NOTE + " Kernel marks are assumed freed with the instance.", "§4 C13"),
+ "C19": ("E-twin", "exploration", "runtime monitor: ideal recursive shadow (one raw kernel watch per directory keyed by its true path) vs the Watcher's recursive watch",
+         "Histories over prefix-sharing sibling trees with inner-directory renames, level-by-level mkdir, file operations at every depth and removal of one of 2-3 recursive roots.", TWIN_NOTE + " The recursive feature is enabled through the verif hook (it is not public).", "§4 C19"),
+})
 PENDING = {}
 ids = [json.loads(l)["id"] for l in open(f"{V}/properties.jsonl")]
 hooks = subprocess.run(["git", "-C", "/repo", "log", "--format=%H %s"], capture_output=True, text=True).stdout.splitlines()
